@@ -23,7 +23,7 @@ RULE = ("random nestings (depth 1-4) of defn, defclass and let over the name poo
         "it or one declaration mixing target kinds (let / function / module), or an expected "
         "rejection; distinct by program text.")
 FLOOR = {"quick": 500, "thorough": 500}
-BUDGET = {"quick": 24, "thorough": 420}
+BUDGET = {"quick": 18, "thorough": 420}
 CASE_TIMEOUT = 20
 NEEDS_EVENTS = True
 ANCHORS = ["hy.scoping:ResolveOuterVars.visit_OuterVar", "hy.scoping:ScopeGlobal.define_nonlocal",
